@@ -102,7 +102,7 @@ def run(ctx):
         and "return ([cb], [])" in t
     ctx.ob("C46.D4-routing", cname(fa, None, "per run: normalizer -> writer, wrapped by the backup when configured"), ok, "" if ok else "routing changed", where=where(fa, fa.node))
     call = repo.func(TW, "TiledWriter.__call__")
-    ok = [A.norm(s) for s in call.node.body] == ["self._run_router(name, doc)"]
+    ok = [A.norm(s) for s in A.body(call.node)] == ["self._run_router(name, doc)"]
     ctx.ob("C46.D4-routing", cname(call, None, "every document goes to the run router"), ok, "" if ok else "documents filtered before routing", where=where(call, call.node))
     stt = repo.func(TW, f"{CL}.start")
     ok = "key=doc['uid']" in A.norm(stt.node) and "metadata={'start': truncate_json_overflow(dict(doc))}" in A.norm(stt.node)
